@@ -189,6 +189,9 @@ def _eval_assign_inner(sim, lhs, lhs_start, rhs, rhs_len):
         mask = (1 << lhs_stop) - (1 << lhs_start)
         sim.slots[slot].write(lhs._index, rhs << lhs_start, mask)
     elif isinstance(lhs, Slice):
+        if lhs_start >= len(lhs):
+            return
+        rhs_len = min(rhs_len, len(lhs) - lhs_start)
         _eval_assign_inner(sim, lhs.value, lhs_start + lhs.start, rhs, rhs_len)
     elif isinstance(lhs, Concat):
         part_stop = 0
@@ -214,6 +217,9 @@ def _eval_assign_inner(sim, lhs, lhs_start, rhs, rhs_len):
             part_rhs &= (1 << part_rhs_len) - 1
             _eval_assign_inner(sim, part, part_lhs_start, part_rhs, part_rhs_len)
     elif isinstance(lhs, Part):
+        if lhs_start >= len(lhs):
+            return
+        rhs_len = min(rhs_len, len(lhs) - lhs_start)
         offset = eval_value(sim, lhs.offset)
         offset *= lhs.stride
         _eval_assign_inner(sim, lhs.value, lhs_start + offset, rhs, rhs_len)
